@@ -11,6 +11,9 @@ PAIRS = [("lab", "srgb"), ("oklch", "srgb"), ("lch", "hsv"), ("srgb", "hwb"), ("
          ("yxy", "xyz"), ("lab", "lch"), ("srgb", "srgbluma"), ("oklab", "okhsl"), ("linsrgb", "lchuv"), ("hwb", "srgb")]
 
 
+ALPHAS = (0.5, -3.0, 1.0, -2.0 ** -18, 0.0, 1 + 2.0 ** -18, 3.0, 0.25)
+
+
 def gen(ctx, path):
     rnd = random.Random(ctx.seed)
     c = Cmds(path)
@@ -41,7 +44,7 @@ def gen(ctx, path):
         axes = [comp_values_out(r) for r in rs]
         pts = list(itertools.product(*axes))
         if len(pts) > 400:
-            pts = rnd.sample(pts, 400 if ctx.quick else 4000) + pts[:8]
+            pts = rnd.sample(pts, min(len(pts), 400 if ctx.quick else 4000)) + pts[:8]
         for p in pts:
             c.add(op="xbounds", node=node, **{"in": p})
     # colours with integer components (bounds 0 .. MAX of the type: every value is inside, clamping is the identity)
@@ -53,8 +56,9 @@ def gen(ctx, path):
     # the three conversion APIs on sources whose results leave the target's range
     for (a, b) in PAIRS:
         pts = rnd.sample(lattice_out(a), min(len(lattice_out(a)), 40 if ctx.quick else 300)) + random_in(a, rnd, 60 if ctx.quick else 600)
-        for p in pts:
-            c.add(op="conv3", to=b, **{"from": a, "in": p})
+        for k, p in enumerate(pts):
+            # the Alpha-wrapped forms of the same three APIs ride along, with a transparency from its own lattice
+            c.add(op="conv3", to=b, a=hx(ALPHAS[k % len(ALPHAS)]), **{"from": a, "in": p})
     return c.close()
 
 
@@ -87,9 +91,9 @@ def judge(ctx, bins, cmds, tag):
             d = coords_of(ev, why)
             what = "%s %s: %s on input %s -> %s" % (ev.get("t"), ev.get("node") or (ev.get("from"), ev.get("to")), why,
                                                     [dy_to_float(x) for x in ev.get("in", [])],
-                                                    {k: ([dy_to_float(x) for x in ev[k]] if isinstance(ev.get(k), list) else ev.get(k))
+                                                    {k: (dy_to_float(ev[k]) if k == "a" else [dy_to_float(x) for x in ev[k]] if isinstance(ev.get(k), list) else ev.get(k))
                                                      for k in ("clamp", "clamp_assign", "slice", "clamp2", "u", "c", "tv", "within_in",
-                                                               "within_out", "within_out_assign", "t_ok") if k in ev})
+                                                               "within_out", "within_out_assign", "t_ok", "a", "au", "ac", "atv", "at_ok") if k in ev})
             report(ctx, d, what, {"bin": b, "event": ev, "trace_line": line})
 
 
@@ -126,7 +130,8 @@ def replay(ctx, path):
     elif ev["ev"] == "bounds":
         c.add(op="bounds", node=ev["node"], alpha=ev.get("alpha", 0), **{"in": vals})
     elif ev["ev"] == "conv3":
-        c.add(op="conv3", to=ev["to"], **{"from": ev["from"], "in": vals})
+        kw = {"a": hx(dy_to_float(ev["a"]))} if "a" in ev else {}
+        c.add(op="conv3", to=ev["to"], **{"from": ev["from"], "in": vals}, **kw)
     else:
         c.add(op="consts")
     c.close()
